@@ -771,6 +771,23 @@ def _bounded(ctx, rng, quick, root):
                     ctx.case([pat_kind, msg, v, u], nontrivial=pat_kind != "nothing" and v > 0)
                     for sig, what in check_render(e, info, mode, "sourced"):
                         fail(sig, what, {"ignore_case": pat_kind, "msg": msg, "mode": {k: mode[k] for k in ("verbosity", "utf8", "ansi", "simple")}})
+                    if pat_kind != "nothing" and v in (1, 2) and u:
+                        # one trace object rendered at debug first (a log file) and then at this verbosity (the console)
+                        from clikit.ui.components.exception_trace import ExceptionTrace
+                        tr = ExceptionTrace(e).ignore_files_in(pattern)
+                        try:
+                            tr.render(make_io(4, u, False))
+                            io2 = make_io(v, u, False)
+                            tr.render(io2)
+                            again = ANSI_RE.sub("", io2.fetch_output())
+                        except Exception as ex:
+                            again = None
+                            fail("ignore|second-render-raises", "rendering one trace at debug and then at verbosity %d raised %r" % (v, ex),
+                                 {"ignore_case": pat_kind, "msg": msg, "mode": {k: mode[k] for k in ("verbosity", "utf8", "ansi", "simple")}, "after_debug": True})
+                        if again is not None and marker in again:
+                            fail("ignore|ignored-frame-shown|after-a-debug-rendering",
+                                 "one trace rendered at debug and then at verbosity %d: the second rendering shows the frame of the ignored file" % v,
+                                 {"ignore_case": pat_kind, "msg": msg, "mode": {k: mode[k] for k in ("verbosity", "utf8", "ansi", "simple")}, "after_debug": True})
                     if pat_kind == "nothing" and v in (1, 2) and marker not in ANSI_RE.sub("", _render_plain(e, mode)):
                         fail("ignore|unmatched-frame-dropped", "a frame whose file does not match the ignore pattern is missing at verbosity %d" % v,
                              {"ignore_case": pat_kind, "msg": msg, "mode": {k: mode[k] for k in ("verbosity", "utf8", "ansi", "simple")}})
@@ -821,6 +838,17 @@ def replay_bounded(check_id, failure):
             pattern = {"dir": re.escape(ign_dir), "linked-dir": re.escape(ign_dir), "regex": r"^.*/ignored_\d+/b_\d+\.py$"}.get(kind, re.escape(os.path.join(root, "no-such-dir")))
             mode = dict(w["mode"], ignore=pattern, ignored_marker=marker if kind != "nothing" else None)
             got = check_render(e, info, mode, "sourced")
+            if w.get("after_debug"):
+                from clikit.ui.components.exception_trace import ExceptionTrace
+                tr = ExceptionTrace(e).ignore_files_in(pattern)
+                try:
+                    tr.render(make_io(4, mode["utf8"], False))
+                    io2 = make_io(mode["verbosity"], mode["utf8"], False)
+                    tr.render(io2)
+                    if marker in ANSI_RE.sub("", io2.fetch_output()):
+                        got.append(("ignore|ignored-frame-shown|after-a-debug-rendering", "the second rendering shows the frame of the ignored file"))
+                except Exception as ex:
+                    got.append(("ignore|second-render-raises", "%r" % (ex,)))
             if kind == "nothing" and marker not in ANSI_RE.sub("", _render_plain(e, mode)) and mode["verbosity"] in (1, 2):
                 got.append(("ignore|unmatched-frame-dropped", "a frame whose file does not match the ignore pattern is missing"))
         elif w.get("mode") == "highlighter":
